@@ -7,6 +7,7 @@ import (
 	"os"
 	"path/filepath"
 	"runtime/debug"
+	"strings"
 
 	"verif/internal/core"
 )
@@ -39,8 +40,59 @@ var commonTrusted = []string{
 	"the checker's reference tables transcribed from RFC 8446, draft-ietf-tls-esni, RFC 9180, RFC 1035, RFC 6891, RFC 7830, RFC 9460 (DESIGN.md section 4)",
 }
 
-// RunOn evaluates one property on the tree at repoDir.
+// altConfigs are the build configurations the thorough tier decides the rules
+// for in addition to the host's: a 32-bit target (int and uintptr are 32 bits
+// wide, which the conversions in index arithmetic must survive) and two other
+// operating systems (the standard library's build-tagged files differ).
+var altConfigs = [][]string{
+	{"GOOS=linux", "GOARCH=386"},
+	{"GOOS=windows", "GOARCH=amd64"},
+	{"GOOS=darwin", "GOARCH=arm64"},
+}
+
+// RunOn evaluates one property on the tree at repoDir. The thorough tier
+// follows dynamic calls through the VTA call graph when it computes
+// reachability scopes, and repeats the rule set under altConfigs.
 func RunOn(repoDir, tier, id string) (*core.Run, error) {
+	run, err := runOn(repoDir, tier, id, nil)
+	if err != nil || tier != "thorough" {
+		return run, err
+	}
+	cfgs := map[string]string{}
+	for _, env := range altConfigs {
+		name := strings.TrimPrefix(env[0], "GOOS=") + "/" + strings.TrimPrefix(env[1], "GOARCH=")
+		alt, err := runOn(repoDir, tier, id, env)
+		if err != nil {
+			return nil, err
+		}
+		nOK := 0
+		for _, o := range alt.Obs {
+			if o.OK {
+				nOK++
+				continue
+			}
+			// a failure of the host configuration is reported once
+			dup := false
+			for _, h := range run.Obs {
+				if !h.OK && h.Rule == o.Rule && h.Construct == o.Construct {
+					dup = true
+				}
+			}
+			if !dup {
+				o.Construct += " @" + name
+				run.Obs = append(run.Obs, o)
+			}
+		}
+		cfgs[name] = fmt.Sprintf("%d obligations, %d discharged", len(alt.Obs), nOK)
+		for f := range alt.Funcs {
+			run.Funcs[f] = true
+		}
+	}
+	run.Tables["build_configurations"] = cfgs
+	return run, nil
+}
+
+func runOn(repoDir, tier, id string, env []string) (*core.Run, error) {
 	pr := Registry[id]
 	if pr == nil {
 		return nil, fmt.Errorf("unknown property %s", id)
@@ -50,7 +102,8 @@ func RunOn(repoDir, tier, id string) (*core.Run, error) {
 		dir = filepath.Join(repoDir, pr.Module)
 	}
 	run := core.NewRun(id, tier)
-	p, err := core.Load(dir)
+	deepCalls = tier == "thorough"
+	p, err := core.LoadEnv(dir, env)
 	if err != nil {
 		run.Undecided(id+".load", "load", "-", "%v", err)
 		return run, nil
